@@ -28,8 +28,9 @@ from ref import oracle
 modelrun.register("recheck", "feed", "feedpieces", "specv1", "hashcheck", "hashcheck_disk", "specv2", "specv2_disk", "fhlayers")
 
 GEN_FILES = []
-EXTRA_TARGETS = ["Extract/ExtractRecheck.vo"]
-AREAS = ["recheck"]
+modelrun.register("checkpaths", "checker", "findroot")
+EXTRA_TARGETS = ["Extract/ExtractRecheck.vo", "Extract/ExtractCheckPaths.vo", "Proofs/CheckPathsProofs.vo"]
+AREAS = ["recheck", "checkpaths"]
 B = 16384
 
 TRUSTED_BASE = [
@@ -41,7 +42,9 @@ TRUSTED_BASE = [
     "ocaml/areas/recheck.ml (cuts the recorded strings with the extracted `chunks`) for the correspondence only",
     "from the integers to the float: matched = consumed > 0 gives (matched/consumed)*100 == 100.0 and matched < consumed < 2^53 gives "
     "a value < 100 in IEEE binary64 round-to-nearest (DESIGN C04; not formalised, checked on every evaluated case)",
-    "mapping of metafile entries to disk paths (find_root / check_paths / walk_file_tree) is exercised end to end, not modelled",
+    "mapping of metafile entries to disk paths: hand model Model/CheckPaths.v (Checker.__init__ / find_root / check_paths / "
+    "walk_file_tree over three file-system oracles; no file size is an input) tied by differential execution on real scratch "
+    "directories (root, per-entry path / length / pieces root, total; payload root and parent; nested same-name entries; damaged states)",
     "os.path.exists / open / readinto on regular files behave as specified; no concurrent writer",
 ]
 ASSUMPTIONS = [
@@ -609,10 +612,13 @@ def origs_for(entries, by_comps):
 class Scenario:
     """one generated payload on disk with its metafiles"""
 
-    def __init__(self, base, rng, pl=None, sizes=None, kinds=None, name=None, never_single=False):
+    def __init__(self, base, rng, pl=None, sizes=None, kinds=None, name=None, never_single=False, tree=None):
         self.base = base
         self.pl = pl or rng.choice([16384, 16384, 32768, 65536])
-        if sizes is not None:
+        if tree is not None:
+            self.gen_classes = set()
+            rng.random()
+        elif sizes is not None:
             if len(sizes) == 1 and rng.random() < 0.4 and not never_single:
                 tree = {(): rng.randbytes(sizes[0])}
             else:
@@ -833,6 +839,144 @@ def tie_generated(ctx, mode, model_ok):
                                   f"all-zero restriction) on {inp}")
 
 
+# ------------------------------------------------- model tie: Checker.__init__ / find_root / check_paths
+def _b(x):
+    return x.encode("utf-8", "surrogateescape") if isinstance(x, str) else bytes(x)
+
+
+def _hexlist(comps):
+    return ",".join(_b(c).hex() for c in comps) if comps else "-"
+
+
+def fs_table_of(base):
+    """every path under `base` (components relative to it; base itself = no component): kind and, for directories,
+       the entries as os.listdir returns them"""
+    items = []
+    for dirpath, dirnames, filenames in os.walk(base):
+        rel = os.path.relpath(dirpath, base)
+        comps = [] if rel == "." else rel.split(os.sep)
+        items.append((comps, "d", os.listdir(dirpath)))
+        for f in filenames:
+            items.append((comps + [f], "f", []))
+    return ";".join(f"{_hexlist(c)}:{k}:{_hexlist(es)}" for c, k, es in items) or "-"
+
+
+def impl_checker_init(mf, path, base):
+    """Checker(mf, path): (root components relative to base, [(components, length, pieces root hex or ~)], total) or an error string"""
+    core.use_repo_in_process()
+    import importlib
+    recheck = importlib.import_module("torrentfile.recheck")
+
+    def rel(p):
+        r = os.path.relpath(str(p), base)
+        return [] if r == "." else r.split(os.sep)
+    try:
+        chk = trees.quiet(lambda: recheck.Checker(mf, path))
+    except Exception as e:  # noqa
+        return f"{type(e).__name__}: {e}"
+    ents = []
+    for i in range(len(chk.fileinfo)):
+        fi = chk.fileinfo[i]
+        pr = fi.get("pieces root")
+        ents.append((rel(fi["path"]), fi["length"], "~" if pr is None else _b(pr).hex()))
+    return rel(chk.root), ents, chk.total
+
+
+def tie_checkpaths(ctx, mode, model_ok):
+    """
+    Checker.__init__ vs the extracted Model/CheckPaths.v on real scratch directories: every metafile kind x {payload root,
+    parent directory} x {intact, damaged: truncated on / off a piece boundary, removed files, payload absent}, single-file
+    payloads incl. the conformant v2 form without info.length, and the name-collision layouts (an entry named like the payload
+    INSIDE the payload; a parent directory named like the payload; a file where the payload directory should be).
+    """
+    n = {"quick": 6, "thorough": 60}[ctx.tier]
+    jobs = []       # (description, metafile bytes, path comps, table, impl)
+    with core.Scratch("vrcp_") as tmp:
+        os.environ["HOME"] = tmp
+        for i in range(n):
+            rng = random.Random(ctx.rng.getrandbits(64))
+            base = os.path.join(tmp, f"p{i}", "w")
+            layout = ["plain", "single", "inner-same-name-dir", "inner-same-name-file", "parent-same-name", "single"][i % 6]
+            pl = rng.choice([16384, 32768])
+            if layout == "single":
+                sc = Scenario(base, rng, pl=pl, tree={(): rng.randbytes(rng.choice([pl * 3 + 5, 2 * pl, 4 * pl + 1, 7]))})
+            elif layout == "plain":
+                sc = Scenario(base, rng, pl=pl)
+            elif layout == "parent-same-name":
+                base = os.path.join(base, "payload")
+                sc = Scenario(base, rng, pl=pl, name="payload", never_single=True, sizes=[pl + 1, 0, 2 * pl])
+            else:
+                # an entry named like the payload inside it (a directory or a file), listed in the metafiles as well
+                inner = ("payload",) if layout.endswith("file") else ("payload", "x")
+                sc = Scenario(base, rng, pl=pl, name="payload",
+                              tree={("a.bin",): rng.randbytes(pl + 9), inner: rng.randbytes(2 * pl + 100), ("z",): b""})
+            states = [("intact", [d for _, d in sc.files])]
+            if mode != "C05":
+                big = max(range(len(sc.files)), key=lambda j: len(sc.files[j][1]))
+                L = len(sc.files[big][1])
+                for label, cut in (("truncated on a piece boundary", (L // sc.pl - 1) * sc.pl if L >= 2 * sc.pl else 0),
+                                   ("truncated inside a piece", max(L - 5, 0)), ("removed", None)):
+                    st = [d for _, d in sc.files]
+                    st[big] = None if cut is None else sc.files[big][1][:cut]
+                    states.append((label, st))
+            for label, st in states:
+                sc.set_state(st)
+                table = fs_table_of(sc.base if layout != "parent-same-name" else os.path.dirname(sc.base))
+                tb = sc.base if layout != "parent-same-name" else os.path.dirname(sc.base)
+                for kind, (mf, _) in sc.metas.items():
+                    raw = oracle.read(mf)
+                    for where, path in (("root", sc.root), ("parent", sc.parent)) + \
+                            ((("missing", os.path.join(sc.base, "nope")),) if label == "intact" and kind == sc.kinds[0] else ()):
+                        relp = os.path.relpath(path, tb)
+                        comps = [] if relp == "." else relp.split(os.sep)
+                        impl = impl_checker_init(mf, path, tb)
+                        desc = {"scope": "checker-init", "layout": layout, "metafile": kind, "state": label, "content_path": where,
+                                "piece_length": sc.pl, "name": sc.name, "single": sc.single,
+                                "files": {"/".join(c): len(x) for c, x in sc.files}}
+                        jobs.append((desc, raw, comps, table, impl))
+                        # the property itself on these layouts (independent of the model): the reference verifier judges
+                        # (a removed single-file payload leaves nothing to check: the tool raises FileNotFoundError, which is not a report)
+                        if (where == "root" or (where == "parent" and layout != "parent-same-name")) and \
+                                not (sc.single and label == "removed"):
+                            meta = sc.metas[kind][1]
+                            entries, origs = sc.entries(kind)
+                            per_file = view_of(meta) == "v2"
+                            guard = True
+                            if per_file:
+                                g = v2_piece_guard(entries, origs, sc.pl)
+                                guard = True if all(g) else g
+                            run_ = impl_run(mf, path)
+                            judge(ctx, mode, f"layout-{layout}-via-{where}", desc, entries, origs, run_, reference(meta, sc.root),
+                                  guard_ok=guard)
+                        ctx.case(key=("checkpaths", i, kind, label, where),
+                                 classes=["checker-init layout " + layout, "checker-init state " + label, "checker-init via " + where,
+                                          "metafile " + kind], nontrivial=True)
+            sc.restore()
+            shutil.rmtree(os.path.join(tmp, f"p{i}"), ignore_errors=True)
+    if not model_ok:
+        return
+    outs = modelrun.run("checker", [(raw.hex(), _hexlist(comps), table) for _, raw, comps, table, _ in jobs])
+    if outs is None:
+        ctx.broken.append("extracted model driver (checkpaths) failed to run")
+        return
+    for (desc, raw, comps, table, impl), o in zip(jobs, outs):
+        ctx.traces_validated += 1
+        if o.startswith("ERROR"):
+            ctx.broken.append(f"checkpaths driver error on {desc}: {o[:100]}")
+            continue
+        if isinstance(impl, str):
+            got = "none"
+        else:
+            root, ents, total = impl
+            got = _hexlist(root) + "|" + (";".join(f"{_hexlist(c)}:{l}:{r}" for c, l, r in ents) or "-") + "|" + str(total)
+        if o != got:
+            def show(x):
+                return x if x == "none" else [[bytes.fromhex(h).decode("utf-8", "replace") for h in f.split(":")[0].split(",") if h != "-"]
+                                               + f.split(":")[1:2] for f in x.split("|")[1].split(";") if f != "-"][:8] + [x.split("|")[0], x.split("|")[2]]
+            ctx.disagree("Model/CheckPaths.v checker_init vs Checker.__init__ (root, per-file path/length/pieces root, total)",
+                         desc, show(o), show(got) if not isinstance(impl, str) else impl)
+
+
 # ----------------------------------------------------------------------------------- end to end
 def utf8_digest_payload(rng):
     """a short payload whose SHA-1 digest is valid UTF-8 (pyben hands such a `pieces` string over as str)"""
@@ -970,6 +1114,7 @@ def run(ctx, mode, model_ok):
     record_ast(ctx)
     tie_small_v1(ctx, mode, model_ok)
     tie_generated(ctx, mode, model_ok)
+    tie_checkpaths(ctx, mode, model_ok)
     e2e(ctx, mode)
     # smallest failing inputs first, so that the replay written per kind is the simplest one found
     def weight(f):
